@@ -25,7 +25,7 @@ gen_skeleton.generate(
     [('quadrature_transform', 'body')],
     'Gen_Skel_Restspectra.v',
     'Whole body of quadrature_transform (C09).',
-    modules={'np', 'signal', 'sparse', 'logging', 'warnings', 'interp', 'ndimage', 'imftools', 'sift'},
+    modules={'np', 'signal', 'sparse', 'logging', 'warnings', 'utils', 'cycles'},
     logger='logger', call_frame_callee=True)
 
 gen_skeleton.generate(
@@ -33,5 +33,5 @@ gen_skeleton.generate(
     [('phase_align', 'body')],
     'Gen_Skel_Restcycles.v',
     'Whole body of phase_align (C14).',
-    modules={'np', 'interp', 'logging', 'spectra', 'sift', 'signal', 're', 'imftools'},
+    modules={'np', 're', 'warnings', 'functools', 'interp', 'spectra', 'utils', 'sift', '_cycles_support', 'logging'},
     logger='logger', call_frame_callee=True)
